@@ -127,6 +127,15 @@ func safeImpl(comp Component, c Case) (out []string) {
 	return comp.Impl(c)
 }
 
+func safeClass(comp Component, c Case, impl []string) (cls string) {
+	defer func() {
+		if r := recover(); r != nil {
+			cls = "unclassified"
+		}
+	}()
+	return comp.Class(c, impl)
+}
+
 // ---------- driver ----------
 
 type Driver struct {
@@ -320,9 +329,14 @@ func (r *runner) record(c Case, kind, why string) {
 		return
 	}
 	small := r.shrink(c, kind)
+	if !r.fails(small, kind) {
+		small = c // the failure does not reproduce on the shrunk case: keep the original
+	}
 	impl := safeImpl(r.comp, small)
 	if kind == "oracle" {
-		why = r.comp.Oracle(small, impl)
+		if w := r.comp.Oracle(small, impl); w != "" {
+			why = w
+		}
 	}
 	r.sum.Mismatches = append(r.sum.Mismatches, Mismatch{
 		Kind: kind, Component: r.comp.Name(), Tag: c.Tag, Ops: small.jsonable(),
@@ -351,7 +365,7 @@ func (r *runner) flush(batch []Case) {
 	}
 	for i, c := range batch {
 		r.sum.Evaluations++
-		cls := r.comp.Class(c, impls[i])
+		cls := safeClass(r.comp, c, impls[i])
 		r.sum.Dist[c.Tag+"/"+cls]++
 		key := c.Key()
 		if !r.seen[key] {
